@@ -7,6 +7,7 @@ import (
 	"fmt"
 	"net"
 	"net/netip"
+	"strings"
 	"testing"
 	"time"
 
@@ -371,6 +372,46 @@ func runC18(run *Run, seed int64, l c18List, carriers []string, reclaim time.Dur
 	}
 	if !checkAll("end") {
 		return
+	}
+	// two large state exchanges in a row: the first admits hundreds of members at an allowed address, the second
+	// names outsiders at the same positions of its list. Whatever is rejected from the second must leave the
+	// records admitted through the first untouched.
+	if outA := l.addrOf("out4"); len(l.InAddr) == 4 && len(outA) == 4 && !oracle.allowed(outA) && oracle.allowed(l.InAddr) {
+		const big = 300
+		first := []WPushNodeState{x.Self(1)}
+		second := []WPushNodeState{x.Self(1)}
+		for i := 0; i < big; i++ {
+			first = append(first, WPushNodeState{Name: fmt.Sprintf("big-%03d", i), Addr: append([]byte(nil), l.InAddr...), Port: uint16(8000 + i), Incarnation: 1, State: SAlive, Meta: []byte(fmt.Sprintf("meta-%03d", i)), Vsn: DefaultVsn()})
+			a := append([]byte(nil), l.InAddr...)
+			if i%60 < 5 {
+				a = append([]byte(nil), outA...)
+			}
+			second = append(second, WPushNodeState{Name: fmt.Sprintf("other-%03d", i), Addr: a, Port: uint16(9000 + i), Incarnation: 1, State: SAlive, Meta: []byte(fmt.Sprintf("xxxx-%03d", i)), Vsn: DefaultVsn()})
+		}
+		if _, _, err := x.PushPull(false, first, nil); err != nil {
+			fail("harness/pushpull", "%v", err)
+			return
+		}
+		Settle(time.Millisecond)
+		snap := map[string]string{}
+		for _, r := range rig.V.ML().VerifDump().Records {
+			if strings.HasPrefix(r.Name, "big-") {
+				snap[r.Name] = recString(&r)
+			}
+		}
+		_, _, _ = x.PushPull(false, second, nil)
+		Settle(time.Millisecond)
+		run.Cell("two-large-exchanges", fmt.Sprintf("admitted=%d", len(snap)))
+		run.Eval(1)
+		if !checkAll("two-large-exchanges") {
+			return
+		}
+		for _, r := range rig.V.ML().VerifDump().Records {
+			if was, ok := snap[r.Name]; ok && was != recString(&r) {
+				fail("record-rewritten/two-large-exchanges", "a later state exchange that does not mention %s changed its record: was [%s], now [%s]", r.Name, was, recString(&r))
+				return
+			}
+		}
 	}
 	// the node's own address: the transport starts to report an address outside the allowlist (the host was
 	// re-addressed) and the application calls UpdateNode. Whether the node keeps announcing its old address or
